@@ -184,3 +184,39 @@ def model_for(obl, axioms, timeout_ms=20000, drop_quantified=False):
     if r == z3.sat:
         return s.model()
     return None
+
+
+def provably_false(obl, axioms, timeout_ms=5000):
+    """For an obligation the solvers left undecided (a model cannot be completed because callee postconditions are quantified):
+    a quantifier-free conjunct of the goal that contradicts the quantifier-free assumptions of its path, which are themselves
+    satisfiable.  Dropping assumptions only weakens the premises, so the conjunct is false in every state the full path condition
+    admits: the obligation cannot hold on this path.  Returns the conjunct or None."""
+    from .engine import _has_quant
+
+    if obl.goal is None:
+        return None
+    s = z3.Solver()
+    s.set("timeout", timeout_ms)
+    for a in list(axioms) + list(obl.assumptions):
+        if not _has_quant(a):
+            s.add(a)
+    if s.check() != z3.sat:
+        return None
+
+    def conj(e):
+        if z3.is_and(e):
+            for ch in e.children():
+                yield from conj(ch)
+        else:
+            yield e
+
+    for c in conj(obl.goal):
+        if _has_quant(c):
+            continue
+        s.push()
+        s.add(c)
+        r = s.check()
+        s.pop()
+        if r == z3.unsat:
+            return c
+    return None
